@@ -154,10 +154,46 @@ def run_history(hist):
       h.Measurement('c').validate_on({L['R'].A: v.in_range(0, 4)}))(ph)
   pre = progs.make_phase('pre', {'ret': ['ok'], 'diag': ['A']}, progs.RunCtx())
   out = io.BytesIO()
-  res, recs, test, terr = htf.run_test([pre, ph], callbacks=[json_factory.OutputToJSON(out, sort_keys=True), snap_cb])
+  # the record is written twice: first to a file named through a pattern, then to a file object
+  pattern, pdir = pattern_path()
+  res, recs, test, terr = htf.run_test([pre, ph], callbacks=[json_factory.OutputToJSON(pattern, sort_keys=True),
+                                                              json_factory.OutputToJSON(out, sort_keys=True), snap_cb])
   rec = recs[0]
   bad.extend(check_final(rec, out.getvalue().decode()))
+  named = take_pattern_output(pdir)
+  if len(named) != 1:
+    bad.append(('json-pattern-files', 'output through a file-name pattern left %d files' % len(named)))
+  elif named[0] != out.getvalue().decode():
+    try:
+      diff = first_diff(strict_loads(named[0]), strict_loads(out.getvalue().decode()))
+    except ValueError as e:
+      diff = 'not strict JSON: %s' % e
+    if diff:
+      bad.append(('json-pattern-differs', 'the JSON written through a file-name pattern differs from the one written to a file object at %s' % diff))
   return bad, {'outcome': rec.outcome.name, 'reads': reads}
+
+
+_TMP = {}
+
+
+def pattern_path():
+  """(pattern, path): a file-name pattern for OutputToJSON and the file it resolves to in this process."""
+  import os, tempfile  # pylint: disable=g-import-not-at-top,multiple-imports
+  if 'd' not in _TMP or _TMP.get('pid') != os.getpid():
+    _TMP['d'], _TMP['pid'] = tempfile.mkdtemp(prefix='vf-c10-'), os.getpid()
+    import atexit, shutil  # pylint: disable=g-import-not-at-top,multiple-imports
+    atexit.register(shutil.rmtree, _TMP['d'], True)
+  return os.path.join(_TMP['d'], '{dut_id}.{outcome}.json'), _TMP['d']
+
+
+def take_pattern_output(d):
+  import os  # pylint: disable=g-import-not-at-top
+  texts = []
+  for fn in sorted(os.listdir(d)):
+    with open(os.path.join(d, fn)) as f:
+      texts.append(f.read())
+    os.remove(os.path.join(d, fn))
+  return texts
 
 
 class FakePS(object):
@@ -190,6 +226,10 @@ def check_final(rec, json_text):
       continue
     if len(r[key]) != len(mem):
       bad.append(('list-length:%s' % key, 'rendering has %d %s, record has %d' % (len(r[key]), key, len(mem))))
+  import attr as _attr  # pylint: disable=g-import-not-at-top
+  for f in _attr.fields(type(rec)):
+    if not f.name.startswith('_') and f.name not in r:
+      bad.append(('record-field-missing:%s' % f.name, 'TestRecord.%s is not represented in the rendering (keys %r)' % (f.name, sorted(r))))
   for i, p in enumerate(rec.phases):
     if i < len(r.get('phases', [])):
       rp = r['phases'][i]
